@@ -1,5 +1,6 @@
 # SPDX-License-Identifier: AGPL-3.0
 
+import hashlib
 import itertools
 import re
 from collections import Counter, defaultdict
@@ -236,6 +237,8 @@ MAX_CALL_DEPTH = 1024
 ECRECOVER_PRECOMPILE = BV(1, size=160)
 SHA256_PRECOMPILE = BV(2, size=160)
 RIPEMD160_PRECOMPILE = BV(3, size=160)
+# ripemd160 of the empty input
+RIPEMD160_EMPTY = BV(0x9C1185A5C5E9FC54612808977EE8F548B2258D31, size=160)
 IDENTITY_PRECOMPILE = BV(4, size=160)
 MODEXP_PRECOMPILE = BV(5, size=160)
 ECADD_PRECOMPILE = BV(6, size=160)
@@ -2498,27 +2501,41 @@ class SEVM:
 
             elif to == SHA256_PRECOMPILE:
                 exit_code = ONE
-                f_sha256 = Function(
-                    f"f_sha256_{arg_size}", BitVecSorts[arg_size], BitVecSort256
-                )
+                if arg_size == 0:
+                    # there is no zero-width bitvector: use the digest of the empty input
+                    ret = ByteVec(hashlib.sha256(b"").digest())
+                else:
+                    f_sha256 = Function(
+                        f"f_sha256_{arg_size}", BitVecSorts[arg_size], BitVecSort256
+                    )
 
-                unwrapped = arg.unwrap()
-                wrapped = (
-                    unwrapped if is_bv(unwrapped) else bytes_to_bv_value(unwrapped)
-                )
-                ret = ByteVec(f_sha256(wrapped))
+                    unwrapped = arg.unwrap()
+                    wrapped = (
+                        unwrapped
+                        if is_bv(unwrapped)
+                        else bytes_to_bv_value(unwrapped)
+                    )
+                    ret = ByteVec(f_sha256(wrapped))
 
             elif to == RIPEMD160_PRECOMPILE:
                 exit_code = ONE
-                f_ripemd160 = Function(
-                    f"f_ripemd160_{arg_size}", BitVecSorts[arg_size], BitVecSort160
-                )
+                if arg_size == 0:
+                    # there is no zero-width bitvector: use the digest of the empty input
+                    ret = ByteVec(uint256(RIPEMD160_EMPTY))
+                else:
+                    f_ripemd160 = Function(
+                        f"f_ripemd160_{arg_size}",
+                        BitVecSorts[arg_size],
+                        BitVecSort160,
+                    )
 
-                unwrapped = arg.unwrap()
-                wrapped = (
-                    unwrapped if is_bv(unwrapped) else bytes_to_bv_value(unwrapped)
-                )
-                ret = ByteVec(uint256(f_ripemd160(wrapped)))
+                    unwrapped = arg.unwrap()
+                    wrapped = (
+                        unwrapped
+                        if is_bv(unwrapped)
+                        else bytes_to_bv_value(unwrapped)
+                    )
+                    ret = ByteVec(uint256(f_ripemd160(wrapped)))
 
             elif to == IDENTITY_PRECOMPILE:
                 exit_code = ONE
@@ -2527,17 +2544,23 @@ class SEVM:
             elif to == MODEXP_PRECOMPILE:
                 exit_code = ONE
                 modulus_size = ex.int_of(arg.get_word(64))
-                f_modexp = Function(
-                    f"f_modexp_{arg_size}_{modulus_size}",
-                    BitVecSorts[arg_size],
-                    BitVecSorts[modulus_size],
-                )
+                if arg_size == 0 or modulus_size == 0:
+                    # the result has the length of the modulus (EIP-198): empty output
+                    ret = ByteVec()
+                else:
+                    f_modexp = Function(
+                        f"f_modexp_{arg_size}_{modulus_size}",
+                        BitVecSorts[arg_size],
+                        BitVecSorts[modulus_size],
+                    )
 
-                unwrapped = arg.unwrap()
-                wrapped = (
-                    unwrapped if is_bv(unwrapped) else bytes_to_bv_value(unwrapped)
-                )
-                ret = ByteVec(f_modexp(wrapped))
+                    unwrapped = arg.unwrap()
+                    wrapped = (
+                        unwrapped
+                        if is_bv(unwrapped)
+                        else bytes_to_bv_value(unwrapped)
+                    )
+                    ret = ByteVec(f_modexp(wrapped))
 
             elif to == ECADD_PRECOMPILE:
                 exit_code = ONE
